@@ -15,7 +15,8 @@ from . import common
 from .common import Corr, f2hex, hex2f, flist, parse_list
 
 ID = "C04"
-LEAN_MODULES = ["TempestVerif.Props.C04", "TempestVerif.Props.C04Round"]
+LEAN_MODULES = ["TempestVerif.Props.C04", "TempestVerif.Props.C04Round", "TempestVerif.Props.C04RoundQ", "TempestVerif.Props.C04Keys",
+                "TempestVerif.Props.C04Merge", "TempestVerif.Props.C04Post", "TempestVerif.Props.C04Sites"]
 RULE = ("suite weights-T: generated histories, T in 1..12 iterations (every value), batch sizes n_t in 1..40 (unequal unless T=1 or a deliberate "
         "equal-size case), beta_t unsorted in [0,1] incl. repeated 0 and 1, z_t uniform in +-50 or +-1e5, log-likelihoods at scales 10 / 1e3 / 1e6 "
         "(both signs) with clusters of equal and 1-ulp-apart values, target beta in {0, 1, interior}; 20% of the histories hand integral beta_t / z_t / beta "
@@ -26,7 +27,22 @@ RULE = ("suite weights-T: generated histories, T in 1..12 iterations (every valu
         "structurally (([], -inf) vs ([], none)). Suite degenerate-T (outside the statement, n_t = 0): histories with empty batches and with all batches "
         "empty (Python logz = NaN vs model none). Suite sampler-T: short real Sampler runs, posterior(return_logw=True, trim_importance_weights=False), "
         "evidence() and three further compute_logw_and_logz targets on the live state vs the model on the exported history. "
-        "Non-trivial = T >= 2 with unequal batch sizes or distinct beta_t.")
+        "Non-trivial = T >= 2 with unequal batch sizes or distinct beta_t. Second pass: weights-T also draws targets outside [0,1] (negative, > 1), "
+        "temperatures repeated at NON-adjacent positions with different z_t / sizes, and magnitudes 1e15 / 1e100 / 1e300. "
+        "Suite keys-T: the three per-key history lists (beta, logz, logl arrays) generated INDEPENDENTLY (aligned; one logz for many betas; one beta for "
+        "many logz; no beta; no logl array; fewer / more logl arrays than betas; other length mismatches; empty arrays), written into a real StateManager "
+        "with update_from_dict, compute_logw_and_logz compared with the key-level Lean model (Model.WeightsKeys.logwK) — value within tolerance, or the SAME "
+        "exception class (ValueError / IndexError); non-trivial = lists not aligned. Suite ops-T: random call sequences on one real StateManager "
+        "(set_current of beta / logz / logl incl. None, commit_current_to_history, update_from_dict, to_dict/from_dict and save_state/load_state round trips into a new manager, "
+        "compute_results, compute_logw_and_logz; every second sequence issues its set_current calls as one update_current) against "
+        "Model.WeightsKeys.runOps: every observation (returned arrays, 'logw' missing from the results dictionary, exception) must agree — this is the cache "
+        "(_results_dict / _invalidate_cache) and the commit rule (None values skipped key by key); non-trivial = a results() call after a state change "
+        "that follows an earlier results() call. Suite nonfinite-T (outside the statement): histories with -inf / +inf / nan / 1e308 entries in logl and "
+        "z_t (incl. the all -inf warm-up batch with z = -inf of finding F8, unreachable from the sampler since /repo 959029e) — model at Float vs numpy, NaN and infinities matched structurally. Suite resume-T: "
+        "a real Sampler run checkpointed with save_every and RESUMED BY A SAMPLER WITH ANOTHER n_particles (the stored batches then differ in size); "
+        "posterior(return_logw=True) in 4 option combinations, evidence() and the live state vs the model on the exported history; rows of trimmed / "
+        "resampled calls must be (logl, logw) pairs of the untrimmed arrays. Suite ieee-H: the rounding hypothesis H-IEEE of the finiteness theorems "
+        "sampled on this platform's numpy (+, -, * against exact rationals; exp on [-745, 0], log on [1/2, 3] and on integers against 60-digit references).")
 MODELLED = ["np.logaddexp is modelled in numpy's max-shifted form with log(1+exp t) for log1p(exp t) and log 2 for the constant LOGE2 "
             "(equal over the reals; float difference <= a few ulp, absorbed by the tolerance; in the rounded-arithmetic theorems log1p(e) lies "
             "inside the range proved for log(rnd(1+e)), so the bounds hold a fortiori but the modelled expression is not the libm call)",
@@ -37,12 +53,29 @@ MODELLED = ["np.logaddexp is modelled in numpy's max-shifted form with log(1+exp
             "int -> float conversion of n_t, N (np.log of an int64) is taken to be exact (true below 2^53)",
             "how _history is assembled (set_current / commit_current_to_history / get_history) is not in this model: it is C17's StateMgr model; here "
             "the tie goes through the public API on the real object",
-            "histories with non-finite z_t or logL are outside the statement and not generated; empty batches only in suite degenerate-T"]
+            "histories with non-finite z_t or logL are outside the statement: generated only in suite nonfinite-T (Float model vs numpy, no theorem); "
+            "empty batches only in suites degenerate-T / keys-T",
+            "key-level model (Model.WeightsKeys): numpy broadcasting of the (T,) beta / mixture-weight arrays against the (Z,) logz array is modelled for "
+            "1-D shapes (equal, or one of them 1); zero columns (one beta, no logz) is the value `outside` (numpy: B = -inf by the ufunc identity)",
+            "compute_results: np.array(list of arrays) is taken to raise exactly when the arrays differ in length (`ragged`); only the keys beta / logz / "
+            "logl are in the model, the other history keys are left empty in suite ops-T",
+            "Sampler level (Props.C04Post): the composed model is Model.ClosedLoop (C10) + Model.Posterior (C12); trim_weights / systematic_resample / the "
+            "gather tables are C20's / C06's / G5's, tied by those properties' suites; here the tie is resume-T and sampler-T"]
 ASSUMPTIONS = ["every committed iteration carries beta, logz and a 1-D logl array (what execute_iteration commits); a commit that leaves logz None "
                "misaligns the per-key lists and is outside the statement",
-               "T >= 1 and every n_t >= 1 (hypothesis WF of the theorems = the statement's quantifier)"]
+               "T >= 1 and every n_t >= 1 (hypothesis WF of the theorems = the statement's quantifier)",
+               "H-IEEE (finiteness in floating point): IEEE binary64 + - * and numpy's exp / log satisfy |rnd x - x| <= 2^-52 |x| + 2^-1074; sampled every run by "
+               "suite ieee-H, not proved",
+               "every committed batch stores as many records (u, x) as log-likelihoods (PoolAligned: proved invariant of the composed model, observed by C12's P16)"]
 
 TOL = 1e-9
+
+
+def translators():
+    """G13: the text of compute_logw_and_logz / compute_results, every call site of the weight function, the cache discipline of
+    StateManager — regenerated from the source into Gen/WeightSites.lean; Props/C04Sites.lean holds the obligations about them"""
+    from translate import g13_wsites
+    return [g13_wsites.generate()]
 
 
 # ------------------------------------------------------------------ real code
@@ -194,14 +227,23 @@ def _gen_history(rng, max_T=12, max_n=40):
                 betas.append(rng.random())
         if rng.random() < 0.3:
             betas.sort()
+        if T >= 3 and rng.random() < 0.25:
+            # the same temperature at NON-adjacent positions (seeded change C04c merged equal-beta columns assuming adjacency)
+            i = rng.randrange(T - 2)
+            j = rng.randrange(i + 2, T)
+            betas[j] = betas[i]
+            if betas[i + 1] == betas[i]:
+                betas[i + 1] = (betas[i] + 0.37) % 1.0
     zmode = rng.random()
     scale = rng.choice([10.0, 10.0, 1e3, 1e6, 1e6])
+    if rng.random() < 0.1:
+        scale = rng.choice([1e15, 1e100, 1e300])        # "finite log-likelihoods of ANY magnitude"
     hist = []
     for t in range(T):
         if zmode < 0.5:
             z = rng.uniform(-50, 50)
         elif zmode < 0.8:
-            z = rng.uniform(-1e5, 1e5)
+            z = rng.uniform(-1e5, 1e5) if scale <= 1e6 else rng.uniform(-scale, scale)
         elif zmode < 0.9:
             z = 0.0
         else:
@@ -209,6 +251,8 @@ def _gen_history(rng, max_T=12, max_n=40):
         hist.append((betas[t], z, _gen_logl(rng, sizes[t], scale)))
     j = rng.random()
     beta = 0.0 if j < 0.25 else 1.0 if j < 0.6 else rng.random() if j < 0.9 else rng.choice(betas)
+    if rng.random() < 0.06 and scale <= 1e6:
+        beta = rng.choice([-1.0, -0.25, 1.5, 2.0, 7.0])      # requested temperature outside [0, 1]
     return hist, beta
 
 
@@ -284,9 +328,12 @@ def _corr_generated(tier, drv):
         c.count("N<=20" if sum(sizes) <= 20 else "N<=100" if sum(sizes) <= 100 else "N>100")
         c.count("sizes_unequal" if len(set(sizes)) > 1 else "sizes_equal")
         c.count("betas_distinct" if len({b for b, _, _ in hist}) > 1 else "betas_all_equal")
-        c.count("beta=0" if beta == 0 else "beta=1" if beta == 1 else "beta_interior")
+        c.count("beta=0" if beta == 0 else "beta=1" if beta == 1 else "beta_interior" if 0 < beta < 1 else "beta_outside_[0,1]")
+        bl = [b for b, _, _ in hist]
+        if any(bl[i] == bl[j] and any(bl[k] != bl[i] for k in range(i + 1, j)) for i in range(len(bl)) for j in range(i + 2, len(bl))):
+            c.count("equal_betas_non_adjacent")
         mx = max(abs(x) for _, _, ls in hist for x in ls)
-        c.count("|logl|>1e5" if mx > 1e5 else "|logl|>100" if mx > 100 else "|logl|<=100")
+        c.count("|logl|>1e14" if mx > 1e14 else "|logl|>1e5" if mx > 1e5 else "|logl|>100" if mx > 100 else "|logl|<=100")
         c.count("|z|>1e3" if max(abs(z) for _, z, _ in hist) > 1e3 else "|z|<=1e3")
     res = drv.batch(lines)
     for (hist, beta, nrm, impl), line, ans in zip(cases, lines, res):
@@ -397,9 +444,527 @@ def _corr_sampler(tier, drv):
     return c
 
 
+# ------------------------------------------------------------------ second pass: key-level lists, call sequences, non-finite values
+def _enc_list(xs):
+    return flist(xs, f2hex)
+
+
+def _enc_arrays(ls):
+    return "~" if not ls else "/".join(_enc_list(a) for a in ls)
+
+
+def _sm_from_keys(kb, kz, kl):
+    from tempest.state_manager import StateManager
+    sm = StateManager(n_dim=1)
+    sm.update_from_dict({"_history": {"beta": list(kb), "logz": list(kz), "logl": [np.array(a, dtype=float) for a in kl]}})
+    return sm
+
+
+def _call_logw(sm, beta, nrm):
+    """-> ('ok', logw list, logz) or (exception class name,)"""
+    with warnings.catch_warnings():
+        warnings.simplefilter("ignore")
+        try:
+            w, z = sm.compute_logw_and_logz(float(beta), normalize=bool(nrm))
+        except (ValueError, IndexError) as e:
+            return (type(e).__name__,)
+    return ("ok", [float(x) for x in np.asarray(w).ravel()], float(z))
+
+
+def _same_num(a, b, tol):
+    if math.isnan(a) or math.isnan(b):
+        return math.isnan(a) and math.isnan(b)
+    if math.isinf(a) or math.isinf(b):
+        return a == b
+    return abs(a - b) <= tol
+
+
+def _match_out(impl, ans, sep, tol, allow_nonfinite=False):
+    """impl = result of _call_logw; ans = the model's answer string (fields separated by `sep`)"""
+    if ans in ("ValueError", "IndexError"):
+        return impl == (ans,)
+    if ans == "outside":
+        # zero mixture columns: numpy reduces over an empty axis to -inf, so every log-weight is +inf
+        # (normalised: inf - inf = NaN)
+        return impl[0] == "ok" and all(x == math.inf or math.isnan(x) for x in impl[1])
+    toks = ans.split(sep)
+    if len(toks) != 3 or toks[0] != "ok" or impl[0] != "ok":
+        return False
+    try:
+        mw = parse_list(toks[1], hex2f)
+        mz = None if toks[2] == "none" else hex2f(toks[2])
+    except ValueError:
+        return False
+    iw, iz = impl[1], impl[2]
+    if len(mw) != len(iw):
+        return False
+    if mz is None:
+        # Python: -inf for no stored beta, NaN when no particle is stored
+        if not (iz == -math.inf or math.isnan(iz)):
+            return False
+    elif allow_nonfinite:
+        if not _same_num(iz, mz, tol):
+            return False
+    elif not (math.isfinite(iz) and math.isfinite(mz) and abs(iz - mz) <= tol):
+        return False
+    for a, b in zip(iw, mw):
+        if allow_nonfinite:
+            if not _same_num(a, b, tol):
+                return False
+        elif not (math.isfinite(a) and math.isfinite(b) and abs(a - b) <= tol):
+            return False
+    return True
+
+
+def _keys_scale(kb, kz, kl, beta):
+    m = 1.0
+    for a in kl:
+        for l in a:
+            m = max(m, abs(beta * l))
+            for b in kb:
+                m = max(m, abs(b * l))
+    for z in kz:
+        m = max(m, abs(z))
+    return m + math.log(1 + sum(len(a) for a in kl))
+
+
+def _gen_keys(rng):
+    """three per-key lists, generated independently; returns (kind, kb, kz, kl)"""
+    hist, beta = _gen_history(rng, max_T=5, max_n=6)
+    # magnitudes clipped to the statement's range: the huge scales are weights-T's business
+    hist = [(b, max(-1e5, min(1e5, z)), [max(-1e6, min(1e6, l)) for l in ls]) for b, z, ls in hist]
+    kb = [b for b, _, _ in hist]
+    kz = [z for _, z, _ in hist]
+    kl = [ls for _, _, ls in hist]
+    T = len(kb)
+    kind = rng.choice(["aligned", "aligned", "one_logz", "one_beta", "no_beta", "no_logl", "fewer_logl", "more_logl",
+                       "logz_mismatch", "no_logz", "empty_arrays", "first_arrays_empty"])
+    if kind == "one_logz":
+        kz = kz[:1]
+    elif kind == "one_beta":
+        kb, kl = kb[:1], kl[:1]
+        kz = kz + [rng.uniform(-5, 5) for _ in range(rng.randint(0, 3))]
+    elif kind == "no_beta":
+        kb = []
+        if rng.random() < 0.5:
+            kz = []
+        if rng.random() < 0.3:
+            kl = []
+    elif kind == "no_logl":
+        kl = []
+    elif kind == "fewer_logl":
+        kl = kl[:rng.randrange(T)] if T > 1 else []
+    elif kind == "more_logl":
+        kl = kl + [_gen_logl(rng, rng.randint(1, 4), 10.0) for _ in range(rng.randint(1, 2))]
+    elif kind == "logz_mismatch":
+        k = rng.choice([n for n in range(0, T + 3) if n != T])
+        kz = (kz + [rng.uniform(-5, 5) for _ in range(3)])[:k]
+    elif kind == "no_logz":
+        kz = []
+    elif kind == "empty_arrays":
+        kl = [[] for _ in kl]
+    elif kind == "first_arrays_empty":
+        kl = [[] for _ in kl] + [_gen_logl(rng, rng.randint(1, 3), 10.0)]
+    return kind, kb, kz, kl, beta
+
+
+def _corr_keys(tier, drv):
+    n = 700 if tier == "quick" else 15000
+    rng = common.rng_for("C04.keys")
+    c = Corr("keys-T", "toleranced Float (1e-9*(1+scale)); exception classes and non-finite values matched exactly")
+    lines, cases = [], []
+    for _ in range(n):
+        kind, kb, kz, kl, beta = _gen_keys(rng)
+        sm = _sm_from_keys(kb, kz, kl)
+        for nrm in (False, True):
+            lines.append(f"c04k.F beta={f2hex(beta)} norm={1 if nrm else 0} kb={_enc_list(kb)} kz={_enc_list(kz)} kl={_enc_arrays(kl)}")
+            cases.append((kind, kb, kz, kl, beta, nrm, _call_logw(sm, beta, nrm)))
+        aligned = len(kb) == len(kz) == len(kl)
+        c.case(([f2hex(x) for x in kb], [f2hex(x) for x in kz], [[f2hex(x) for x in a] for a in kl], f2hex(beta)), not aligned)
+        c.count(f"kind={kind}")
+        c.count(f"lengths(T,Z,K)={'aligned' if aligned else 'T=Z' if len(kb) == len(kz) else 'Z=1' if len(kz) == 1 else 'T=1' if len(kb) == 1 else 'other'}")
+    res = drv.batch(lines)
+    for (kind, kb, kz, kl, beta, nrm, impl), ans in zip(cases, res):
+        tol = TOL * (1 + _keys_scale(kb, kz, kl, beta))
+        c.count("model=" + (ans.split(" ")[0] if ans else "?"))
+        # all stored arrays counted empty => log(0) - log(0): NaN columns; matched structurally
+        if not _match_out(impl, ans, " ", tol, allow_nonfinite=True):
+            c.disagree(kind=kind, beta=beta, normalize=nrm, keys={"beta": kb, "logz": kz, "logl": kl},
+                       impl=[impl[0]] + ([repr(impl[2]), impl[1][:6]] if impl[0] == "ok" else []), model=ans[:200])
+        if len(kb) <= 2 and sum(len(a) for a in kl) <= 4 and kind not in ("aligned",):
+            c.sample({"kind": kind, "beta_list": kb, "logz_list": kz, "logl_arrays": kl, "beta": beta, "normalize": nrm,
+                      "impl": impl[0] if impl[0] != "ok" else {"logw": impl[1], "logz": repr(impl[2])}, "model": ans[:120]})
+    return c
+
+
+def _gen_ops(rng):
+    """a call sequence: list of (token for the model, python thunk description)"""
+    ops = []
+    n = rng.randint(5, 28)
+    size_pool = [rng.randint(1, 4)]
+    if rng.random() < 0.45:
+        size_pool.append(rng.randint(1, 4))       # ragged histories: compute_results raises
+    for _ in range(n):
+        k = rng.random()
+        if k < 0.42:
+            # one (possibly incomplete) iteration
+            b = None if rng.random() < 0.08 else rng.choice([0.0, 1.0, rng.random()])
+            z = None if rng.random() < 0.12 else rng.uniform(-5, 5)
+            ls = None if rng.random() < 0.08 else [rng.uniform(-10, 10) for _ in range(rng.choice(size_pool))]
+            sets = [("sb", b), ("sz", z), ("sl", ls)]
+            rng.shuffle(sets)
+            if rng.random() < 0.2:
+                sets = sets[:rng.randint(0, 2)]      # leave the other current values as they are
+            ops += sets
+            ops.append(("c", None))
+        elif k < 0.62:
+            ops.append(("r", None))
+        elif k < 0.80:
+            ops.append(("w", (rng.choice([0.0, 1.0, rng.random()]), rng.random() < 0.5)))
+        elif k < 0.88:
+            ops.append(("c", None))                 # a commit without touching the current values
+        elif k < 0.92:
+            _, kb, kz, kl, _ = _gen_keys(rng)
+            ops.append(("u", (kb, kz, kl)))
+        elif k < 0.96:
+            ops.append(("x", rng.choice(["dict", "file"])))     # to_dict/from_dict or save_state/load_state into a NEW manager
+        else:
+            ops.append(("sl", [rng.uniform(-3, 3) for _ in range(rng.choice(size_pool))]))   # set_current alone must drop the cache
+    if not any(o[0] == "r" for o in ops):
+        ops.append(("r", None))
+    return ops
+
+
+def _enc_op(op):
+    k, v = op
+    if k in ("c", "r"):
+        return k
+    if k == "x":
+        return "x"
+    if k in ("sb", "sz"):
+        return f"{k}:{'N' if v is None else f2hex(v)}"
+    if k == "sl":
+        return f"sl:{'N' if v is None else _enc_list(v)}"
+    if k == "w":
+        return f"w:{f2hex(v[0])}:{1 if v[1] else 0}"
+    if k == "u":
+        return f"u:{_enc_list(v[0])}|{_enc_list(v[1])}|{_enc_arrays(v[2])}"
+    raise ValueError(k)
+
+
+def _run_ops_real(ops, use_update=False):
+    """apply the call sequence to a real StateManager (replaced by its copy at a round trip); returns the observations.
+    use_update: consecutive set_current calls are issued as ONE update_current({...}) call (what the sampler's steps do)"""
+    import os
+    import tempfile
+    from tempest.state_manager import StateManager
+    sm = StateManager(n_dim=1)
+    obs = []
+    pending = {}
+
+    def flush():
+        if pending:
+            sm.update_current(dict(pending))
+            pending.clear()
+    for k, v in ops:
+        if k in ("sb", "sz", "sl"):
+            key = {"sb": "beta", "sz": "logz", "sl": "logl"}[k]
+            val = (None if v is None else np.array(v, dtype=float)) if k == "sl" else v
+            if use_update:
+                pending[key] = val
+            else:
+                sm.set_current(key, val)
+            continue
+        flush()
+        if k == "c":
+            sm.commit_current_to_history()
+        elif k == "u":
+            sm.update_from_dict({"_history": {"beta": list(v[0]), "logz": list(v[1]), "logl": [np.array(a, dtype=float) for a in v[2]]}})
+        elif k == "x":
+            if v == "dict":
+                sm = StateManager.from_dict(sm.to_dict())
+            else:
+                d = tempfile.mkdtemp(prefix="tv04s_")
+                try:
+                    with _quiet():
+                        sm.save_state(os.path.join(d, "s.state"))
+                        sm2 = StateManager(n_dim=1)
+                        sm2.load_state(os.path.join(d, "s.state"))
+                    sm = sm2
+                finally:
+                    import shutil
+                    shutil.rmtree(d, ignore_errors=True)
+        elif k == "w":
+            obs.append(("W", _call_logw(sm, v[0], v[1])))
+        elif k == "r":
+            with warnings.catch_warnings():
+                warnings.simplefilter("ignore")
+                try:
+                    r = sm.compute_results()
+                except (ValueError, IndexError) as e:
+                    obs.append(("R", "raised", type(e).__name__))
+                    continue
+            if "logw" not in r:
+                obs.append(("R", "nologw", sorted(r.keys())))
+            else:
+                obs.append(("R", [float(x) for x in np.asarray(r["logw"]).ravel()]))
+    return obs
+
+
+def _corr_ops(tier, drv):
+    n = 350 if tier == "quick" else 8000
+    rng = common.rng_for("C04.ops")
+    c = Corr("ops-T", "toleranced Float (1e-9*(1+scale)); which call raises / returns what matched exactly")
+    seqs = [_gen_ops(rng) for _ in range(n)]
+    # the finding's call sequence (two batches of different size, results() twice) and its repaired-world twin are ordinary cases
+    seqs.append([("sb", 0.0), ("sz", 0.0), ("sl", [0.0]), ("c", None), ("sb", 1.0), ("sl", [0.0, 0.0]), ("c", None), ("r", None), ("r", None),
+                 ("w", (1.0, True))])
+    lines = ["c04ops.F ops=" + ";".join(_enc_op(o) for o in ops) for ops in seqs]
+    res = drv.batch(lines)
+    for i, (ops, ans) in enumerate(zip(seqs, res)):
+        real = _run_ops_real(ops, use_update=(i % 2 == 1))
+        c.count("set_via_update_current" if i % 2 == 1 else "set_via_set_current")
+        model = [] if ans == "-" else ans.split(";")
+        kinds = [o[0] for o in ops]
+        first_r = kinds.index("r") if "r" in kinds else len(kinds)
+        nontriv = any(k == "r" for k in kinds[first_r + 1:]) and any(k in ("c", "u", "x", "sb", "sz", "sl") for k in kinds[first_r + 1:])
+        c.case([_enc_op(o) for o in ops], nontriv)
+        c.count("results_calls", kinds.count("r"))
+        c.count("weights_calls", kinds.count("w"))
+        c.count("commits", kinds.count("c"))
+        c.count("loads", kinds.count("u"))
+        c.count("round_trips(to_dict/from_dict, save_state/load_state)", kinds.count("x"))
+        ok = len(real) == len(model)
+        why = "number of observations"
+        if ok:
+            for ob, m in zip(real, model):
+                if ob[0] == "R":
+                    if ob[1] == "raised":
+                        good = m == "R:raised"
+                        c.count("results_raised")
+                    elif ob[1] == "nologw":
+                        good = m == "R:nologw"
+                        c.count("results_without_logw(finding)")
+                    elif m == "R:outside":
+                        c.count("results_outside")
+                        good = all(math.isnan(x) for x in ob[1])
+                    else:
+                        c.count("results_with_logw")
+                        good = m.startswith("R:") and m not in ("R:raised", "R:nologw")
+                        if good:
+                            try:
+                                mw = parse_list(m[2:], hex2f)
+                            except ValueError:
+                                mw = None
+                            good = mw is not None and len(mw) == len(ob[1]) and all(_same_num(a, b, TOL * 50) for a, b in zip(ob[1], mw))
+                else:
+                    good = m.startswith("W:") and _match_out(ob[1], m[2:], "_", TOL * 50, allow_nonfinite=True)
+                    c.count("weights_" + ob[1][0])
+                if not good:
+                    ok = False
+                    why = f"observation {ob[:2]!r} vs model {m[:80]!r}"
+                    break
+        if not ok:
+            c.disagree(what=why, ops=[_enc_op(o) for o in ops][:40], impl=[(o[0], o[1] if isinstance(o[1], str) else "values") for o in real][:12],
+                       model=[m[:24] for m in model][:12])
+        if len(ops) <= 9:
+            c.sample({"ops": [(k, v) for k, v in ops], "real": [o[:2] for o in real], "model": [m[:60] for m in model]})
+    return c
+
+
+def _corr_nonfinite(tier, drv):
+    n = 400 if tier == "quick" else 10000
+    rng = common.rng_for("C04.nonfinite")
+    c = Corr("nonfinite-T", "Float model vs numpy; NaN / +-inf matched structurally, finite values within 1e-9*(1+|value|)")
+    inf, nan = math.inf, math.nan
+    specials = [-inf, -inf, inf, nan, 0.0, -0.0, 1e308, -1e308, 5e-324]
+    cases = [([(0.0, -inf, [-inf] * 4)], 1.0, "all_inf_batch(F8,unreachable_since_959029e)"),
+             ([(0.0, -inf, [-inf] * 4), (0.0, 0.0, [-1.0, -2.0, -0.5, -3.0])], 1.0, "all_inf_batch_then_finite_batch"),
+             ([(0.0, 0.0, [-1.0, -inf]), (1.0, -0.5, [-0.3])], 1.0, "stored_minus_inf_logl"),
+             ([(0.5, 0.0, [-1.0, -inf]), (1.0, -0.5, [-0.3])], 1.0, "stored_minus_inf_logl_beta>0")]
+    for _ in range(n):
+        T = rng.randint(1, 4)
+        hist = []
+        for _t in range(T):
+            b = rng.choice([0.0, 1.0, rng.random()])
+            z = rng.choice([rng.uniform(-5, 5)] * 4 + specials)
+            ls = [rng.choice([rng.uniform(-10, 10)] * 3 + specials) for _ in range(rng.randint(1, 4))]
+            hist.append((b, z, ls))
+        cases.append((hist, rng.choice([0.0, 1.0, rng.random()]), "generated"))
+    lines = [_op(h, b, nrm) for h, b, _ in cases for nrm in (False, True)]
+    res = drv.batch(lines)
+    k = 0
+    for hist, beta, tag in cases:
+        flat = [x for _, _, ls in hist for x in ls] + [z for _, z, _ in hist]
+        c.case((_hist_json(hist), f2hex(beta)), any(not math.isfinite(x) for x in flat))
+        c.count("has_nan" if any(math.isnan(x) for x in flat) else "has_inf" if any(math.isinf(x) for x in flat) else "finite_extreme")
+        if tag != "generated":
+            c.count(tag)
+        for nrm in (False, True):
+            iw, iz = _impl(hist, beta, nrm)
+            parsed = _parse_ans(res[k])
+            k += 1
+            good = parsed is not None and parsed[1] is not None and len(parsed[0]) == len(iw) and \
+                all(_same_num(a, b, TOL * (1 + abs(a))) for a, b in zip(iw, parsed[0])) and _same_num(iz, parsed[1], TOL * (1 + abs(iz)))
+            c.count("output_all_finite" if all(map(math.isfinite, iw)) and math.isfinite(iz) else
+                    "output_has_nan" if any(map(math.isnan, iw)) or math.isnan(iz) else "output_has_inf")
+            if not good:
+                c.disagree(hist=_hist_json(hist), readable=[[b, repr(z), [repr(x) for x in ls]] for b, z, ls in hist], beta=beta, normalize=nrm,
+                           impl=[[repr(x) for x in iw][:8], repr(iz)], model=res[k - 1][:200])
+            if tag != "generated" and not nrm:
+                c.sample({"case": tag, "history": [[b, repr(z), [repr(x) for x in ls]] for b, z, ls in hist], "beta": beta,
+                          "impl_logw": [repr(x) for x in iw], "impl_logz": repr(iz)})
+    return c
+
+
+# ------------------------------------------------------------------ second pass: a run resumed by a sampler with another n_particles
+def _resumed_runs(tier):
+    import os
+    import shutil
+    import tempfile
+    from tempest import Sampler
+    specs = [dict(seed=3, n1=16, n2=24, n_a=48, n_b=96, kernel="rwm", off=0.0),
+             dict(seed=8, n1=20, n2=12, n_a=40, n_b=72, kernel="tpcn", off=500.0)]
+    if tier != "quick":
+        specs += [dict(seed=20 + i, n1=12 + 4 * (i % 3), n2=10 + 6 * ((i + 1) % 3), n_a=36 + 12 * (i % 2), n_b=80 + 16 * (i % 3),
+                       kernel=["rwm", "tpcn"][i % 2], off=[0.0, -3e4, 1e6][i % 3]) for i in range(8)]
+    for sp in specs:
+        d = tempfile.mkdtemp(prefix="tv04_")
+        try:
+            off = sp["off"]
+
+            def mk(n, off=off, d=d, kernel=sp["kernel"]):
+                return Sampler(lambda u: 8.0 * u - 4.0, lambda x: off - 1.5 * float(np.sum((x - 0.5) ** 2)), 2, n_particles=n,
+                               clustering=False, sample=kernel, output_dir=d, n_steps=1, n_max_steps=2)
+            with _quiet(), warnings.catch_warnings():
+                warnings.simplefilter("ignore")
+                np.random.seed(sp["seed"])
+                mk(sp["n1"]).run(n_total=sp["n_a"], progress=False, save_every=2)
+                cks = sorted((f for f in os.listdir(d) if f.endswith(".state") and "final" not in f),
+                             key=lambda f: int(f.split("_")[-1].split(".")[0]))
+                s2 = mk(sp["n2"])
+                s2.run(n_total=sp["n_b"], progress=False, resume_state_path=os.path.join(d, cks[len(cks) // 2]))
+            yield sp, s2
+        finally:
+            shutil.rmtree(d, ignore_errors=True)
+
+
+def _export_hist(st):
+    T = st.get_history_length()
+    betas = [float(b) for b in np.asarray(st.get_history("beta")).ravel()]
+    zs = [float(z) for z in np.asarray(st.get_history("logz")).ravel()]
+    return [(betas[t], zs[t], [float(x) for x in st.get_history("logl", index=t)]) for t in range(T)]
+
+
+def _corr_resume(tier, drv):
+    c = Corr("resume-T", "toleranced Float (1e-9*(1+scale)); rows of trimmed / resampled calls matched exactly against the untrimmed arrays")
+    lines, cases = [], []
+    try:
+        for sp, s in _resumed_runs(tier):
+            hist = _export_hist(s.state)
+            sizes = [len(ls) for _, _, ls in hist]
+            c.case((_hist_json(hist),), len(set(sizes)) > 1)
+            c.count("runs")
+            c.count("batch_sizes_differ" if len(set(sizes)) > 1 else "batch_sizes_equal")
+            c.count(f"sizes={sorted(set(sizes))}")
+            with _quiet(), warnings.catch_warnings():
+                warnings.simplefilter("ignore")
+                plain = s.posterior(return_logw=True, trim_importance_weights=False)
+                ev = s.evidence()
+                live = s.state.compute_logw_and_logz(1.0)
+            x0, w0, l0, lw0 = plain
+            flat = [x for _, _, ls in hist for x in ls]
+            if [float(v) for v in l0] != flat:
+                c.disagree(what="posterior() logl is not the flat stored history", spec=sp)
+            if not np.allclose(np.asarray(w0), np.exp(np.asarray(lw0)), rtol=1e-9, atol=0):
+                c.disagree(what="posterior() weights are not exp(logw)", spec=sp)
+            if f2hex(float(ev[0])) != f2hex(float(live[1])):
+                c.disagree(what=f"evidence() {ev[0]!r} is not compute_logw_and_logz(1.0)[1] = {live[1]!r} of the final history", spec=sp)
+            lines.append(_op(hist, 1.0, True))
+            cases.append((hist, 1.0, True, ([float(v) for v in lw0], float(ev[0])), {"via": "resumed Sampler.posterior/evidence", "spec": sp}))
+            for beta, nrm in ((0.0, False), (0.37, True)):
+                with warnings.catch_warnings():
+                    warnings.simplefilter("ignore")
+                    w, z = s.state.compute_logw_and_logz(beta, normalize=nrm)
+                lines.append(_op(hist, beta, nrm))
+                cases.append((hist, beta, nrm, ([float(v) for v in w], float(z)), {"via": "resumed sampler.state", "spec": sp}))
+            # trimmed / resampled calls: every returned (x, logl, logw) row is a row of the untrimmed arrays (theorem C04_posterior_rows)
+            rows = {}
+            for xi, li, wi in zip(np.asarray(x0), l0, lw0):
+                rows.setdefault((tuple(float(v) for v in np.atleast_1d(xi)), float(li)), set()).add(float(wi))
+            for trim, res_ in ((True, False), (False, True), (True, True)):
+                with _quiet(), warnings.catch_warnings():
+                    warnings.simplefilter("ignore")
+                    out = s.posterior(return_logw=True, trim_importance_weights=trim, resample=res_)
+                c.count(f"posterior(trim={trim},resample={res_})")
+                bad = [k for k, (xi, li, wi) in enumerate(zip(np.asarray(out[0]), out[2], out[3]))
+                       if float(wi) not in rows.get((tuple(float(v) for v in np.atleast_1d(xi)), float(li)), ())]
+                if bad or not (len(out[0]) == len(out[1]) == len(out[2]) == len(out[3]) > 0):
+                    c.disagree(what=f"posterior(trim={trim}, resample={res_}): row {bad[:1]} is not an (x, logl, logw) row of the stored history", spec=sp)
+    except Exception as e:  # the sampler itself failing is not this property's business
+        c.error = f"resumed Sampler run failed: {type(e).__name__}: {e}"
+        return c
+    res = drv.batch(lines)
+    for (hist, beta, nrm, impl, extra), ans in zip(cases, res):
+        _compare(c, hist, beta, nrm, impl, ans, extra={"via": extra["via"], "spec": extra["spec"]})
+        c.count("evaluations")
+    if cases:
+        hist, beta, nrm, impl, extra = cases[0]
+        c.sample({"spec": extra["spec"], "batch_sizes": [len(ls) for _, _, ls in hist], "betas": [b for b, _, _ in hist],
+                  "evidence()": impl[1], "model_logz": hex2f(res[0].split(" ")[-1])})
+    return c
+
+
+# ------------------------------------------------------------------ second pass: the rounding hypothesis of the finiteness theorems
+def _corr_ieee(tier):
+    """H-IEEE (Lemmas/Rounded.lean `RoundModel rnd u eta Omega` with u = 2^-52, eta = 2^-1074): |rnd x - x| <= u|x| + eta for the
+    primitive operations of the function, sampled on this platform's numpy.  Not a model-vs-code comparison: a check of the
+    hypothesis under which `C04_rounded_finite` speaks about doubles."""
+    from fractions import Fraction
+    n = 1500 if tier == "quick" else 30000
+    rng = common.rng_for("C04.ieee")
+    c = Corr("ieee-H", "hypothesis check: numpy float64 vs exact rationals (+ - *) / 60-digit references (exp, log); bound 2^-52|x| + 2^-1074")
+    U = Fraction(1, 2 ** 52)
+    ETA = Fraction(1, 2 ** 1074)
+
+    def rnd_ok(got, exact):
+        return math.isfinite(got) and abs(Fraction(got) - exact) <= U * abs(exact) + ETA
+
+    def dec_frac(d):
+        return Fraction(d)
+    with localcontext() as ctx:
+        ctx.prec = 70
+        ctx.Emax = MAX_EMAX
+        ctx.Emin = MIN_EMIN
+        for _ in range(n):
+            sc = rng.choice([1.0, 10.0, 1e3, 1e6, 1e15, 1e100])
+            a = rng.uniform(-sc, sc)
+            b = rng.choice([rng.random(), rng.uniform(-sc, sc), 1.0, 0.0])
+            for name, got, exact in (("add", float(np.float64(a) + np.float64(b)), Fraction(a) + Fraction(b)),
+                                     ("sub", float(np.float64(a) - np.float64(b)), Fraction(a) - Fraction(b)),
+                                     ("mul", float(np.float64(a) * np.float64(b)), Fraction(a) * Fraction(b))):
+                c.count(name)
+                if not rnd_ok(got, exact):
+                    c.disagree(op=name, a=f2hex(a), b=f2hex(b), impl=repr(got), model="outside 2^-52|x| + 2^-1074")
+            t = -abs(rng.choice([rng.uniform(0, 1), rng.uniform(0, 40), rng.uniform(0, 745), 10.0 ** rng.uniform(-300, 0)]))
+            got = float(np.exp(np.float64(t)))
+            c.count("exp")
+            if not rnd_ok(got, dec_frac(Decimal(t).exp())):
+                c.disagree(op="exp", a=f2hex(t), impl=repr(got), model="outside 2^-52|x| + 2^-1074")
+            sarg = rng.choice([rng.uniform(0.5, 3.0), 1.0 + rng.uniform(-1, 1) * 10.0 ** rng.uniform(-16, -1), float(rng.randint(1, 10 ** 9)),
+                               float(rng.randint(1, 60))])
+            got = float(np.log(np.float64(sarg)))
+            c.count("log")
+            if not rnd_ok(got, dec_frac(Decimal(sarg).ln())):
+                c.disagree(op="log", a=f2hex(sarg), impl=repr(got), model="outside 2^-52|x| + 2^-1074")
+            c.case((f2hex(a), f2hex(b), f2hex(t), f2hex(sarg)), True)
+    return c
+
+
 def correspond(tier):
     drv = common.Driver()
-    return [_corr_generated(tier, drv), _corr_degenerate(tier, drv), _corr_sampler(tier, drv)]
+    return [_corr_generated(tier, drv), _corr_degenerate(tier, drv), _corr_sampler(tier, drv), _corr_keys(tier, drv), _corr_ops(tier, drv),
+            _corr_nonfinite(tier, drv), _corr_resume(tier, drv), _corr_ieee(tier)]
 
 
 # ------------------------------------------------------------------ property oracle on the real code
@@ -526,7 +1091,105 @@ def _fixed_candidates():
         ([(1.0, 1e5, [big] * 3), (0.0, -1e5, [-big])], 0.5),
         ([(0.25, 2.0, [1.0, 2.0, 3.0, 4.0, 5.0])], 1.0),
         ([(1.0, -3.0, [0.5]), (0.0, 0.0, [0.1, 0.2, 0.3, 0.4, 0.5, 0.6, 0.7]), (0.5, -1.0, [0.9, 1.1])], 0.3),
+        # the same temperature stored at non-adjacent positions, with different evidence values and sizes (C04_mix_by_level)
+        ([(0.0, 0.0, [-1.0, -2.0]), (1.0, -0.5, [-0.3]), (0.3, 0.25, [2.0, 5.0, 7.0]), (1.0, 3.0, [0.0, 1.0])], 1.0),
+        ([(1.0, 2.0, [0.5, 1.5]), (0.0, 0.0, [0.25]), (1.0, -1.0, [1.0]), (0.0, 1.0, [3.0, -2.0, 0.5])], 0.5),
+        # requested temperature outside [0, 1]
+        ([(0.0, 0.0, [-1.0, -2.0]), (1.0, -0.5, [-0.3, 0.4, 1.0])], 2.0),
+        ([(0.0, 0.0, [-1.0, -2.0]), (0.5, -0.5, [-0.3, 0.4, 1.0])], -1.0),
+        # any magnitude
+        ([(0.0, 0.0, [-1e300, 1e300]), (1.0, 1e299, [3e299, -7e299, 1e300])], 1.0),
     ]
+
+
+def oracle_cache(hist):
+    """compute_results()['logw'] must be the weights of the history AS IT IS NOW: a results() call, further commits / a bare
+    set_current, then results() again — compared bit for bit with a fresh compute_logw_and_logz(1.0) on the same object (exact;
+    cannot fire on correct code).  Needs equal batch sizes (compute_results stacks the per-iteration arrays)."""
+    from tempest.state_manager import StateManager
+    if len(hist) < 2 or len({len(ls) for _, _, ls in hist}) != 1:
+        return None
+    sm = StateManager(n_dim=1)
+    with warnings.catch_warnings():
+        warnings.simplefilter("ignore")
+        for t, (b, z, ls) in enumerate(hist):
+            sm.set_current("logl", np.array(ls, dtype=float))
+            sm.set_current("beta", float(b))
+            sm.set_current("logz", float(z))
+            sm.compute_results()                 # fills the cache for the history BEFORE this commit
+            sm.commit_current_to_history()
+            r = sm.compute_results()
+            w, _ = sm.compute_logw_and_logz(1.0)
+            if "logw" not in r or [f2hex(float(x)) for x in r["logw"]] != [f2hex(float(x)) for x in w]:
+                return (f"cache: after committing iteration {t + 1} of {len(hist)}, compute_results()['logw'] "
+                        f"({'missing' if 'logw' not in r else str(len(r['logw'])) + ' values'}) is not compute_logw_and_logz(1.0)[0] "
+                        f"({len(w)} values) of the current history")
+        n0 = len(sm.compute_results()["logw"])
+        sm.update_from_dict(sm.to_dict())
+        if len(sm.compute_results()["logw"]) != n0:
+            return "cache: compute_results() changed after an update_from_dict(to_dict()) round trip"
+        # loading another (shorter) history must drop the cached weights
+        d = sm.to_dict()
+        d["_history"] = {k: v[:-1] for k, v in d["_history"].items()}
+        sm.update_from_dict(d)
+        r = sm.compute_results()
+        w, _ = sm.compute_logw_and_logz(1.0)
+        if "logw" not in r or [f2hex(float(x)) for x in r["logw"]] != [f2hex(float(x)) for x in w]:
+            return (f"cache: after update_from_dict of a history with {len(hist) - 1} iterations compute_results()['logw'] still has "
+                    f"{len(r.get('logw', []))} values; compute_logw_and_logz(1.0)[0] has {len(w)}")
+    return None
+
+
+def oracle_sampler(resumed=False):
+    """Sampler.posterior(return_logw=True) / evidence() against the 60-digit reference of the statement on the exported history"""
+    runs = _resumed_runs("quick") if resumed else ((sp, s) for sp, s, *_ in _sampler_runs("quick"))
+    for sp, s in runs:
+        hist = _export_hist(s.state)
+        with _quiet(), warnings.catch_warnings():
+            warnings.simplefilter("ignore")
+            out = s.posterior(return_logw=True, trim_importance_weights=False)
+            ev = s.evidence()
+        lw = [float(x) for x in out[-1]]
+        N = sum(len(ls) for _, _, ls in hist)
+        _, glob = _scales(hist, 1.0)
+        _, ref_z, ref_norm, _, _ = _ref(hist, 1.0)
+        what = None
+        if len(lw) != N:
+            what = f"posterior(return_logw=True) returned {len(lw)} log-weights for {N} stored particles"
+        else:
+            for i in range(N):
+                if not abs(lw[i] - ref_norm[i]) <= TOL * (1 + glob):
+                    what = f"posterior(return_logw=True): logw[{i}] = {lw[i]!r}, the statement's normalised log-weight at beta=1 is {ref_norm[i]!r}"
+                    break
+        if what is None and not abs(float(ev[0]) - ref_z) <= TOL * (1 + glob):
+            what = f"evidence() = {ev[0]!r}, log of the mean unnormalised weight over the stored history is {ref_z!r}"
+        if what is None and not np.allclose(np.asarray(out[1]), np.exp(np.asarray(lw)), rtol=1e-9, atol=1e-300):
+            what = "posterior(): weights are not exp(logw)"
+        if what is None:
+            # trimmed / resampled calls: every returned (logl, logw) pair is the pair of a stored particle
+            flat = [x for _, _, ls in hist for x in ls]
+            pairs = {}
+            for l, r in zip(flat, ref_norm):
+                pairs.setdefault(l, []).append(r)
+            for trim, res_ in ((True, False), (True, True), (False, True)):
+                with _quiet(), warnings.catch_warnings():
+                    warnings.simplefilter("ignore")
+                    o2 = s.posterior(return_logw=True, trim_importance_weights=trim, resample=res_)
+                if not (len(o2[0]) == len(o2[1]) == len(o2[2]) == len(o2[3])):
+                    what = (f"posterior(return_logw=True, trim_importance_weights={trim}, resample={res_}) returned arrays of lengths "
+                            f"{[len(a) for a in o2]}")
+                    break
+                bad = [k for k, (l, w) in enumerate(zip(o2[2], o2[3]))
+                       if not any(abs(float(w) - r) <= TOL * (1 + glob) for r in pairs.get(float(l), ()))]
+                if bad:
+                    k = bad[0]
+                    what = (f"posterior(return_logw=True, trim_importance_weights={trim}, resample={res_}): row {k} has logl {float(o2[2][k])!r} and "
+                            f"logw {float(o2[3][k])!r}; the stored particle(s) with that log-likelihood have normalised log-weight {pairs.get(float(o2[2][k]))}")
+                    break
+        if what:
+            return {"what": ("resumed run (other n_particles): " if resumed else "") + what, "sampler_spec": sp, "resumed": resumed,
+                    "batch_sizes": [len(ls) for _, _, ls in hist]}
+    return None
 
 
 def _fail_record(msg, hist, beta, shift_c, perm):
@@ -573,6 +1236,30 @@ def search(tier, hints):
                 break
     # prefer the smallest failing history as the reported one
     found.sort(key=lambda f: sum(len(b[2]) for b in f["hist"]) + len(f["hist"]))
+    if not found:
+        # the cache of compute_results (equal batch sizes), then the Sampler-level observation points
+        crng = common.rng_for("C04.search.cache")
+        for _ in range(40):
+            T, n = crng.randint(2, 5), crng.randint(1, 5)
+            hist = [(crng.choice([0.0, 1.0, crng.random()]), crng.uniform(-5, 5), [crng.uniform(-10, 10) for _ in range(n)]) for _ in range(T)]
+            try:
+                msg = oracle_cache(hist)
+            except Exception as e:  # noqa
+                msg = f"cache: raised {type(e).__name__}: {e}"
+            if msg:
+                found.append({"what": msg, "hist": _hist_json(hist), "beta": 1.0, "beta_hex": f2hex(1.0), "cache": True,
+                              "history_readable": [[b, z, ls] for b, z, ls in hist]})
+                break
+    if not found:
+        for resumed in (False, True):
+            try:
+                f = oracle_sampler(resumed)
+            except Exception as e:  # noqa
+                f = {"what": f"{'resumed ' if resumed else ''}Sampler run raised {type(e).__name__}: {e}", "resumed": resumed, "sampler": True}
+            if f:
+                f["sampler"] = True
+                found.append(f)
+                break
     return found
 
 
@@ -581,8 +1268,20 @@ def replay(obj):
     if "witness" in f.get("replay", {}):
         from . import witnesses
         return witnesses.ALL[f["replay"]["witness"]]()
+    if f.get("sampler"):
+        try:
+            r = oracle_sampler(bool(f.get("resumed")))
+        except Exception as e:  # noqa
+            r = {"what": f"raised {type(e).__name__}: {e}"}
+        return {"fails": r is not None, "detail": r["what"] if r else None}
     hist = _hist_from_json(f["hist"])
     beta = hex2f(f["beta_hex"])
+    if f.get("cache"):
+        try:
+            msg = oracle_cache(hist)
+        except Exception as e:  # noqa
+            msg = f"cache: raised {type(e).__name__}: {e}"
+        return {"fails": msg is not None, "detail": msg}
     try:
         msg = oracle(hist, beta, shift_c=f.get("shift_c"), perm=f.get("perm"))
     except Exception as e:  # noqa
